@@ -163,9 +163,11 @@ PROPS = {
                 "marker in any reply or transfer stream, no decoy name in a file list; non-trivial = at least one traversal token or "
                 "inconsistent encoding AND a request was answered; distinct = hash(request descriptions)",
         "assumptions": ["requester holds all privileges (C05 is checked separately)"],
-        "quick": {"runs": [{"test": "^TestC07$", "shards": 16, "checks": 700, "timeout": 600}]},
+        "quick": {"runs": [{"test": "^TestC07$", "shards": 16, "checks": 700, "timeout": 600},
+                           {"test": "^TestC07LinkedRoot$", "shards": 2, "checks": 150, "timeout": 600}]},
         "thorough": {"runs": [{"test": "^TestC07$", "shards": 16, "checks": 14000, "timeout": 3400},
-                              {"fuzz": "^FuzzC07$", "test": "FuzzC07", "fuzztime": "180s", "timeout": 600, "group": 1, "weight": 16}]},
+                              {"fuzz": "^FuzzC07$", "test": "FuzzC07", "fuzztime": "180s", "timeout": 600, "group": 1, "weight": 16},
+                              {"test": "^TestC07LinkedRoot$", "shards": 4, "checks": 3000, "timeout": 1800}]},
     },
     "C08": {
         "title": "Downloads deliver exactly the file's bytes",
@@ -493,7 +495,7 @@ _LATER = {
     "C04": "logins whose file names are odd (.ops, a.b, x.yaml, -dash, ~t, #h), the data-size word of the login transaction varied, creations that must be refused (login with a path separator, 250 bytes) made before the attempt: none of them may open a door; logins that are an existing login (or the empty guest login) followed by one or two NUL bytes, with that account's password: another byte string, no account; TestC04Net (child process, production accept loop): a wrong password, an unknown login and a correct login from a banned address each get the handshake reply, exactly one error reply or ban notice, and then the close (within 30 s)",
     "C05": "cells added: ../-names in upload / rename, side-file kinds, an account record without a name (the logged-in name must be the one the account allows); TestC05GhostCategory: post-article to a news path that does not exist, by a requester without create-category / create-bundle: no grouping may appear in memory or in the file",
     "C06": "TestC06RenameForm (update-user rename form), TestC06GraceWindow, TestC06TwoCreators (two creators at one instant: neither account holds a bit its creator lacks), TestC06Bystander (a protected user sharing the kicked user's address is neither dropped nor refused), schedule point before registry delete in TestC06LoginWindow; creators whose privileges were set at run time (set-user) keep the 24 bits that name no privilege, and may request them: the created account holds exactly what was requested; creations also arrive as the second entry of a batch request whose first entry edits another account (each entry is judged on its own; the edited account must still be there)",
-    "C07": "aliases are made in one folder and then moved to another (shallower or deeper) one: the link must still resolve inside the root; an account with a root of its own is edited through set-user and the server restarted; the file root is spelled with trailing separators / dot segments / relative forms; in a third of the per-account-root cases the root folder has been renamed away before the requests (the account then has no files; nothing of the server's tree may be touched, listed or disclosed instead); a third of the folder uploads go into a folder that holds partial files exactly where the server will look for the streamed items (the leftovers of a cut earlier upload), so that the resume branch is taken with traversal item paths",
+    "C07": "aliases are made in one folder and then moved to another (shallower or deeper) one: the link must still resolve inside the root; an account with a root of its own is edited through set-user and the server restarted; the file root is spelled with trailing separators / dot segments / relative forms; in a third of the per-account-root cases the root folder has been renamed away before the requests (the account then has no files; nothing of the server's tree may be touched, listed or disclosed instead); a third of the folder uploads go into a folder that holds partial files exactly where the server will look for the streamed items (the leftovers of a cut earlier upload), so that the resume branch is taken with traversal item paths; TestC07LinkedRoot: the file root is a symbolic link; delete / rename / move / comment / alias requests whose name resolves to the root itself (.., empty, ., /, dir/..) with and without a path: nothing outside the real root changes - the link and its would-be side files stay - and the root stays reachable",
     "C08": "client-info requests between grant and transfer; comments of 32 600-65 535 bytes; paths 254-300 folders deep; TestC08ManyGrants: up to hundreds of outstanding grants (files and banner) redeemed in drawn order, each delivers its own bytes; TestC08Slow (child process): 24 MiB file, the reader pauses 33 s after the first MiB and must still get every byte; previews that carry a resume offset (bare data from the offset on); resume data layouts: data fork entry alone, followed by a resource fork entry, or with the fork type in lower case / empty (then the server may resume at the offset or at 0, reply and stream must agree)",
     "C09": "a download of the name while the upload is partial (must not serve the partial under the final name); info forks without the comment-size word; TestC09HugeAnnounced: announced data-fork sizes of 2^31..2^32-1 with a stream that ends early: no file under the final name, the partial holds a prefix; between cut and resume a move request for the unfinished entry: whether the server leaves it or takes the partial data along, the name is not published and the upload goes on where the partial data is; slow writers: 2 / 11 / 45 fake seconds pass between the segments of the client's stream",
     "C10": "download trees are decorated with stored resource / info side files, aliases and leftovers of interrupted uploads (X.incomplete): each item's bytes must match its own header and names arrive unchanged; PreserveResourceForks drawn in downloads; after preserve uploads the stored forks are checked; a third of the decorated files have an information fork only (what set-comment leaves behind): three forks with an empty resource fork are announced and the rest of the tree must still arrive; one name in fifteen is padded to 200-244 bytes (files; the .incomplete suffix must still fit the file system) or 244-255 bytes (folders); a sixth of the pre-seeded places hold an alias whose target is gone: there is no file yet, the item must be sent and stored",
